@@ -2,6 +2,7 @@ package nc
 
 import (
 	"go/token"
+	"strings"
 
 	"golang.org/x/tools/go/ssa"
 )
@@ -411,4 +412,29 @@ func c02AlwaysReaches(a, h *ssa.BasicBlock) bool {
 		}
 	}
 	return len(a.Succs) > 0
+}
+
+// c02ResultOwned (C02.8): the hand-over fact of C16.4 ("what a species goroutine sends on the result channel is
+// memory allocated by that goroutine itself - not a parameter, a package-level object or a pooled buffer") is the
+// fact the parallel executor needs for population-size conservation as well: the collector decodes the babies only
+// after wg.Wait(), so a payload that aliases storage which is given back or reused when the goroutine ends
+// (sync.Pool Put, a shared buffer) is overwritten by a later goroutine, decoding fails (or yields another species'
+// babies) and NextEpoch returns an error instead of PopSize new organisms. The rule is C16's; it is run here and
+// its result.owned obligations are taken over unchanged (as C16.6 takes over C06/C04 obligations).
+func (r *Run) c02ResultOwned() {
+	sub := NewRun(r.P, "C16", r.Tier)
+	sub.Guarded(func() { C16(r.P, sub) })
+	n := 0
+	for _, o := range sub.Obs {
+		switch {
+		case o.Rule == "C16.4" && strings.HasPrefix(o.Construct, "result.owned"):
+			n++
+			r.add(o.Status, "parallel."+o.Construct, o.Pos, o.Detail, o.Path)
+		case o.Rule == "C16.0" || o.Rule == "setup":
+			// the goroutine root was not found: the ownership rule could not run
+			r.add(o.Status, "parallel."+o.Construct, o.Pos, o.Detail, o.Path)
+		}
+	}
+	r.PathsExplored += sub.PathsExplored
+	r.Floor("pointer-like fields of the result message whose ownership was decided", n, 1)
 }
